@@ -4,6 +4,7 @@ import (
 	blocks "github.com/ipfs/go-block-format"
 	"github.com/ipfs/go-cid"
 	"github.com/ipld/go-ipld-prime"
+	"github.com/ipld/go-ipld-prime/codec/dagcbor"
 	cidlink "github.com/ipld/go-ipld-prime/linking/cid"
 
 	"github.com/ipfs/go-graphsync"
@@ -18,6 +19,7 @@ type Builder struct {
 	completedResponses map[graphsync.RequestID]graphsync.ResponseStatusCode
 	outgoingResponses  map[graphsync.RequestID][]GraphSyncLinkMetadatum
 	extensions         map[graphsync.RequestID][]graphsync.ExtensionData
+	extensionSizes     map[graphsync.RequestID]uint64
 	requests           map[graphsync.RequestID]GraphSyncRequest
 }
 
@@ -29,6 +31,7 @@ func NewBuilder() *Builder {
 		completedResponses: make(map[graphsync.RequestID]graphsync.ResponseStatusCode),
 		outgoingResponses:  make(map[graphsync.RequestID][]GraphSyncLinkMetadatum),
 		extensions:         make(map[graphsync.RequestID][]graphsync.ExtensionData),
+		extensionSizes:     make(map[graphsync.RequestID]uint64),
 	}
 }
 
@@ -46,6 +49,7 @@ func (b *Builder) AddBlock(block blocks.Block) {
 // AddExtensionData adds the given extension data to to the message
 func (b *Builder) AddExtensionData(requestID graphsync.RequestID, extension graphsync.ExtensionData) {
 	b.extensions[requestID] = append(b.extensions[requestID], extension)
+	b.extensionSizes[requestID] += ExtensionDataSize(extension)
 	// make sure this extension goes out in next response even if no links are sent
 	_, ok := b.outgoingResponses[requestID]
 	if !ok {
@@ -56,6 +60,27 @@ func (b *Builder) AddExtensionData(requestID graphsync.RequestID, extension grap
 // BlockSize returns the total size of all blocks in this message
 func (b *Builder) BlockSize() uint64 {
 	return b.blkSize
+}
+
+// ExtensionSize returns the total encoded size of all extension data in this message
+func (b *Builder) ExtensionSize() uint64 {
+	total := uint64(0)
+	for _, size := range b.extensionSizes {
+		total += size
+	}
+	return total
+}
+
+// ExtensionDataSize returns the number of bytes the given extension data
+// occupies when encoded, which is the amount of memory accounted for it
+func ExtensionDataSize(extension graphsync.ExtensionData) uint64 {
+	if extension.Data == nil {
+		return 0
+	}
+	// any erorr produced by this call will be picked up during actual encode, so
+	// we can defer handling till then and let it be zero for now
+	length, _ := dagcbor.EncodedLength(extension.Data)
+	return uint64(length)
 }
 
 // AddLink adds the given link and whether its block is present
@@ -81,11 +106,15 @@ func (b *Builder) Empty() bool {
 	return len(b.requests) == 0 && len(b.outgoingBlocks) == 0 && len(b.outgoingResponses) == 0
 }
 
-// ScrubResponse removes a response from a message and any blocks only referenced by that response
+// ScrubResponse removes a response from a message and any blocks only referenced by that response.
+// It returns the number of bytes (blocks and extension data) removed from the message
 func (b *Builder) ScrubResponses(requestIDs []graphsync.RequestID) uint64 {
+	freedExtensions := uint64(0)
 	for _, requestID := range requestIDs {
 		delete(b.completedResponses, requestID)
 		delete(b.extensions, requestID)
+		freedExtensions += b.extensionSizes[requestID]
+		delete(b.extensionSizes, requestID)
 		delete(b.outgoingResponses, requestID)
 	}
 	oldSize := b.blkSize
@@ -103,7 +132,7 @@ func (b *Builder) ScrubResponses(requestIDs []graphsync.RequestID) uint64 {
 	}
 	b.blkSize = newBlkSize
 	b.outgoingBlocks = savedBlocks
-	return oldSize - newBlkSize
+	return oldSize - newBlkSize + freedExtensions
 }
 
 // Build assembles and encodes message data from the added requests, links, and blocks.
